@@ -199,7 +199,9 @@ def r_who_cancel(ctx: Ctx, rule: str):
                     fr, fenv, it = _caller_frame(ctx, c.func, c.env, it0)
                     if fr is f and fenv is None and isinstance(it, ast.Name):
                         src = it.id
-            if src is not None and src in sc.defs:
+                    elif fr is f and fenv is None and isinstance(it, (ast.ListComp, ast.DictComp)):
+                        src = it  # the collection of look-ups written in place (as the argument of a helper)
+            if src is not None and (not isinstance(src, str) or src in sc.defs):
                 ok = _collects_all_lookups(ctx, f, src, varargs)
                 head = [h for h in ctx.nodes(f, lambda n: n.op == "iter" and n.ast is c.loops[-1])]
                 if ok and head:
@@ -209,13 +211,16 @@ def r_who_cancel(ctx: Ctx, rule: str):
                    detail="" if ok else "cannot show that the receiver of cancel() ranges over the list of looked-up tasks")
 
 
-def _collects_all_lookups(ctx: Ctx, f: FuncInfo, name: str, varargs: Optional[str]) -> Optional[bool]:
+def _collects_all_lookups(ctx: Ctx, f: FuncInfo, name, varargs: Optional[str]) -> Optional[bool]:
     sc = ctx.an.scope(f)
-    hows = sc.defs.get(name, [])
-    vals = [h[1] for h in hows if h[0] == "assign"] + [h[2] for h in hows if h[0] == "ann"]
-    if len(vals) != 1:
-        return None
-    v = vals[0]
+    if isinstance(name, ast.AST):
+        v = name
+    else:
+        hows = sc.defs.get(name, [])
+        vals = [h[1] for h in hows if h[0] == "assign"] + [h[2] for h in hows if h[0] == "ann"]
+        if len(vals) != 1:
+            return None
+        v = vals[0]
 
     def is_lookup(e: ast.AST, var: str) -> bool:
         return isinstance(e, ast.Call) and any(t.name == "_get_running_task" for t in sc.callee(e).targets) and len(e.args) == 1 \
